@@ -46,6 +46,18 @@ theorem ack_waiter_closed_at_most_once (acks ids : List Nat) (id : Nat) (h : ack
     (notifyAcks acks ids).2.count (Ev.ack id) ≤ 1 :=
   Nat.le_trans (notifyAcks_count id ids acks) h
 
+/-- The same over a whole history of msgs_ack payloads (any number of them, any ids, any repetition
+across payloads): the closes of one id over the entire history never exceed its registrations, and
+each `NotifyAcks` conserves waiters — a registered waiter is afterwards either still registered or
+was closed exactly once. -/
+theorem ack_history_closes_at_most_registered (acks : List Nat) (batches : List (List Nat)) (id : Nat) :
+    (ackSeq acks batches).count (Ev.ack id) ≤ acks.count id ∧
+    ∀ ids, (notifyAcks acks ids).1.count id + (notifyAcks acks ids).2.count (Ev.ack id) = acks.count id :=
+  ⟨ackSeq_count id batches acks, fun ids => notifyAcks_conserve id ids acks⟩
+
+/-- Non-vacuity: id 7 acknowledged three times across two payloads is closed once; 9 never registered. -/
+example : ackSeq [7, 8] [[7, 7, 9], [7, 8]] = [.ack 7, .ack 8] := by decide
+
 /-- Handling a payload never changes which requests are pending. -/
 theorem pending_unchanged (fuel : Nat) (st : St) (b : Bytes) :
     (handle fuel st b).st.pending = st.pending :=
